@@ -121,8 +121,9 @@ pub enum FileFault {
     WithdrawUnknownAt(usize),
     /// A publish of a new object of `size` bytes is inserted before element `n`.
     OversizeAt(usize, usize),
-    /// The file is served with other bytes than those hashed for the
-    /// notification file (all elements are fine).
+    /// The file served is not the one the notification file vouches for: the
+    /// content of its last published object differs (a comment is appended if
+    /// it publishes nothing).  It parses and every element applies.
     ContentAltered,
     /// The session_id attribute of the file is a different one.
     WrongSession,
@@ -270,12 +271,18 @@ impl State {
                 }
                 _ => {}
             }
+            if *fault == FileFault::ContentAltered && n + 1 == v.objects.len() {
+                let mut d = data.to_vec(); d.extend_from_slice(b" (altered)");
+                out.push_str(&format!("  <publish uri=\"{uri}\">{}</publish>\n", b64(&d)));
+                continue
+            }
             out.push_str(&format!("  <publish uri=\"{uri}\">{}</publish>\n", b64(data)));
             if let FileFault::RepeatAt(k) = fault {
                 if *k == n { out.push_str(&format!("  <publish uri=\"{uri}\">{}</publish>\n", b64(data))); }
             }
         }
         let n = v.objects.len();
+        if *fault == FileFault::ContentAltered && n == 0 { out.push_str("  <!-- altered -->\n"); }
         match fault {
             FileFault::BadXmlAt(k) if *k >= n => { out.push_str("  <publish uri=<<< this is not xml\n"); return out.into_bytes() }
             FileFault::OversizeAt(k, size) if *k >= n => {
@@ -315,7 +322,16 @@ impl State {
             }
             if pos == n { break }
             let e = &v.delta[pos];
+            let last_publishing = v.delta.iter().rposition(|e| !matches!(e, Elem::Withdraw { .. }));
             match fault {
+                FileFault::ContentAltered if last_publishing == Some(pos) => {
+                    let e2 = match e {
+                        Elem::Publish { uri, data } => { let mut d = data.to_vec(); d.extend_from_slice(b" (altered)"); Elem::Publish { uri: uri.clone(), data: Bytes::from(d) } }
+                        Elem::Update { uri, old, data } => { let mut d = data.to_vec(); d.extend_from_slice(b" (altered)"); Elem::Update { uri: uri.clone(), old: *old, data: Bytes::from(d) } }
+                        w => w.clone(),
+                    };
+                    e2.render(&mut out);
+                }
                 FileFault::WrongHashAt(k) if (*k).min(n.saturating_sub(1)) == pos => {
                     let bogus = sha256(b"some other content");
                     let e2 = match e {
@@ -330,6 +346,9 @@ impl State {
             if let FileFault::RepeatAt(k) = fault {
                 if (*k).min(n.saturating_sub(1)) == pos { e.render(&mut out) }
             }
+        }
+        if *fault == FileFault::ContentAltered && !v.delta.iter().any(|e| !matches!(e, Elem::Withdraw { .. })) {
+            out.push_str("  <!-- altered -->\n");
         }
         out.push_str("</delta>\n");
         out.into_bytes()
@@ -363,7 +382,6 @@ impl State {
     fn snapshot_body(&self, idx: usize) -> Vec<u8> {
         match &self.faults.snapshot {
             FileFault::None | FileFault::Http(_) => self.intact(false, idx).0.clone(),
-            FileFault::ContentAltered => { let mut b = self.intact(false, idx).0.clone(); b.extend_from_slice(b"<!-- altered -->\n"); b }
             fault => self.render_snapshot(idx, fault),
         }
     }
@@ -373,7 +391,6 @@ impl State {
         match &self.faults.delta {
             Some((s, fault)) if *s == serial => match fault {
                 FileFault::None | FileFault::Http(_) => self.intact(true, idx).0.clone(),
-                FileFault::ContentAltered => { let mut b = self.intact(true, idx).0.clone(); b.extend_from_slice(b"<!-- altered -->\n"); b }
                 fault => self.render_delta(idx, fault),
             },
             _ => self.intact(true, idx).0.clone(),
